@@ -21,6 +21,14 @@ Part A (policy): the REAL `meson setup --backend=none` of $VERIF_REPO on generat
   A third of the worlds let the subproject's dependency take its version from the subproject's project() (main project
   has another version); table cells are also looked up from INSIDE a subproject that keeps its providers in its own
   subproject directory (default name or another one).
+  The dependency's NAME is a factor of every world: a plain name, spellings with upper-case characters (the same
+  spelling in the .pc file, dependency(), meson.override_dependency(), the wrap file and force_fallback_for), names
+  meson serves through several detection methods with pkg-config among them (zlib, openssl, gpgme, ...); the link of
+  a [provide] world is `dependency_names = <name>`, `<name> = <variable>` or the wrap file being named like the
+  dependency.  Lookup sequences whose EARLIER lookups were left unsatisfied (a constraint nothing meets, no usable
+  fallback) followed by a lookup with other keyword arguments: nothing is carried over from an unsatisfied lookup.
+  find_program() of a name listed in [provide] program_names (with and without upper-case characters) falls back
+  to the subproject that overrides it.
 Part B (integrity): wrap worlds with a corruption class at a location, a recorded-hash class and an injected
   fault, through `meson setup` and `meson subprojects download`.  Monitors wrap shutil.unpack_archive,
   urllib.request.urlopen, Resolver.get_data/check_hash/copy_tree.  Online: at every unpack the monitor hashes
@@ -151,6 +159,15 @@ def _policy_mechanism(world: dict, lk: dict, allowed: T.Set[tuple], obs: tuple, 
         flags.append('looked-up-in-subproject-with-subproject_dir-' + world['nested'])
     if world.get('implicit_ver'):
         flags.append('version-from-subproject-project')
+    ncls = G.name_class(G.dep_of(world))
+    if ncls == 'case':
+        flags.append('name-with-upper-case-characters')
+    elif ncls == 'factory':
+        flags.append('name-with-several-detection-methods')
+    if world.get('wrap_form') == 'wrapname':
+        flags.append('wrap-file-named-like-the-dependency')
+    if facts.get('after_unsatisfied'):
+        flags.append('after-unsatisfied-lookup-with-other-arguments')
     if lk['explicit']:
         flags.append('explicit')
     elif world['provide']:
@@ -213,9 +230,9 @@ def run_policy_world(world: dict) -> dict:
             if 'pcpath' in p2:
                 world2['pcpath'] = p2['pcpath']
             if world.get('sub_download'):
-                world2['sub_download'] = not os.path.isdir(os.path.join(root, 'src', 'subprojects', G.SUB))
+                world2['sub_download'] = not os.path.isdir(os.path.join(root, 'src', 'subprojects', G.sub_of(world)))
             args2 = ['-Dwrap_mode=' + p2['wrap_mode'],
-                     '-Dforce_fallback_for=' + {'none': '', 'dep': G.DEP, 'sub': G.SUB}[p2['fff']]]
+                     '-Dforce_fallback_for=' + {'none': '', 'dep': G.dep_of(world), 'sub': G.sub_of(world)}[p2['fff']]]
             if 'pcpath' in p2:
                 args2.append(G.pcpath_arg(p2['pcpath'], root))
             r2 = runner.meson(['setup', '--reconfigure', bdir] + args2, cwd=os.path.join(root, 'src'),
@@ -244,15 +261,17 @@ def _judge_policy_run(world: dict, r: runner.Result, out: dict, c: T.Callable, p
         cur: T.Optional[T.List[dict]] = None
         sub_done_after: T.List[bool] = []
         where = G.NEST if world.get('nested') else ''     # the (sub)project whose build file makes the lookups
+        dep_name, sub_name = G.dep_of(world), G.sub_of(world)
+        ncls = G.name_class(dep_name)
         sub_done = world['pre'] in ('configured', 'override_sub') or (world['pre'] == 'failed_sub' and not world.get('sub_fails'))
         for ev in r.records:
             c('monitor:' + ev['ev'])
-            if ev['ev'] == 'lookup-begin' and ev['depth'] == 1 and ev.get('subproject') == where and G.DEP in ev['names']:
+            if ev['ev'] == 'lookup-begin' and ev['depth'] == 1 and ev.get('subproject') == where and dep_name in ev['names']:
                 cur = []            # (a subproject's own top-level lookups of other names are not ours)
                 per.append(cur)
             if cur is not None:
                 cur.append(ev)
-            if ev['ev'] == 'do_subproject-end' and ev['name'] == G.SUB and ev['found']:
+            if ev['ev'] == 'do_subproject-end' and ev['name'] == sub_name and ev['found']:
                 sub_done = True
             if ev['ev'] == 'lookup-end' and ev['depth'] == 1 and cur is not None:
                 cur = None
@@ -281,7 +300,12 @@ def _judge_policy_run(world: dict, r: runner.Result, out: dict, c: T.Callable, p
             rl = _ref_lookup(lk, world)
             allowed, tag, facts = R.expect(w, st, rl)
             facts = dict(facts, remembered_unknown_system=any(v[0] == ('system', 'unknown') for v in st.sticky.values()))
+            # every earlier lookup of this configuration was left unsatisfied and this one has other arguments: nothing
+            # may be carried over from the earlier ones
+            facts['after_unsatisfied'] = bool(i > 1 and all(a == ('notfound',) for a in answers[:-1]) and
+                                              any(not _same_args(p, lk) for p in world['seq'][:i - 1]))
             c('A:lookups-judged')
+            c('A:name-' + ncls)
             c('A:tag-' + tag)
             detail = {**witness_base, 'lookup_index': i, 'lookup': lk, 'observed': list(obs),
                       'allowed': sorted(map(list, allowed)), 'tag': tag,
@@ -297,6 +321,13 @@ def _judge_policy_run(world: dict, r: runner.Result, out: dict, c: T.Callable, p
                 out['violations'].append((_policy_mechanism(world, lk, allowed, obs, facts), detail))
             elif tag == 'doc':
                 c('rule:documented-answer')
+                c('rule:documented-answer:name-' + ncls)
+                if facts['after_unsatisfied']:
+                    c('rule:relookup-after-unsatisfied')
+                    c('rule:relookup-after-unsatisfied:name-' + ncls)
+                if not lk['explicit'] and world['provide'] and facts.get('available') and st.override is None:
+                    # the implicit link through the wrap file decides this cell
+                    c('rule:provide-link:' + G.wrap_form(world) + ':name-' + ncls)
                 if obs not in allowed:
                     out['violations'].append((_policy_mechanism(world, lk, allowed, obs, facts), detail))
             else:
@@ -317,7 +348,7 @@ def _judge_policy_run(world: dict, r: runner.Result, out: dict, c: T.Callable, p
                 if facts.get('system_must_not_be_consulted') and tag == 'doc':
                     forced_cell = bool(facts.get('forced') and facts.get('available')) and st.override is None
                     c('rule:forced-no-system' if forced_cell else 'rule:override-no-system')
-                    if any(e['ev'] == 'fed' and e['name'] == G.DEP and e['depth'] == 1 for e in inner):
+                    if any(e['ev'] == 'fed' and e['name'] == dep_name and e['depth'] == 1 for e in inner):
                         out['violations'].append(('policy:system-consulted-' + ('under-forced-fallback' if forced_cell
                                                                                 else 'despite-override'), detail))
                 if facts.get('no_subproject_from_lookup') and tag == 'doc':
@@ -354,6 +385,58 @@ def _judge_policy_run(world: dict, r: runner.Result, out: dict, c: T.Callable, p
         if r.traceback:
             c('A:traceback')
         return answers
+
+
+# ====================================================================================================
+# programs provided by a wrap file
+# ====================================================================================================
+def run_program_world(world: dict) -> dict:
+    """find_program(name) with the name listed in [provide] program_names of a wrap file whose subproject overrides
+    it: "will automatically fallback to use the subproject" (Wrap-dependency-system-manual.md).  Required lookups
+    only, wrap modes that allow an on-disk subproject."""
+    out: T.Dict[str, T.Any] = {'counts': {}, 'violations': [], 'key': common.digest(world), 'cov': [],
+                               'inconclusive': None, 'sample': None}
+    cnt = out['counts']
+
+    def c(k: str, n: int = 1) -> None:
+        cnt[k] = cnt.get(k, 0) + n
+    root = case_dir()
+    try:
+        files, args = G.p_world_files(world)
+        runner.write_tree(root, files)
+        env = {'PKG_CONFIG_LIBDIR': os.path.join(root, 'pc'), 'PKG_CONFIG_PATH': '', 'PATH': _BIN,
+               'MESON_FORCE_BACKTRACE': ''}
+        r = runner.meson(['setup', '--backend=none', os.path.join(root, 'b')] + args, cwd=os.path.join(root, 'src'),
+                         env=env, monitors=[M.policy_monitor], timeout=90)
+        if r.timed_out:
+            out['inconclusive'] = 'timeout'
+            return out
+        configured = False
+        for ev in r.records:
+            c('monitor:' + ev['ev'])
+            if ev['ev'] == 'do_subproject-end' and ev['name'] == G.SUB and ev['found']:
+                configured = True
+        m = re.search(r'^Message: P\|(true|false)$', r.out, re.M)
+        c('rule:program-provided-by-wrap')
+        upper = world['prog'] != world['prog'].lower()
+        c('P:name-' + ('with-upper-case-characters' if upper else 'lower-case'))
+        ok = r.rc == 0 and m is not None and m.group(1) == 'true' and configured and 'Message: END' in r.out
+        if not ok:
+            flags = [world['wrap_mode']] if world['wrap_mode'] != 'default' else []
+            if world['fff'] != 'none':
+                flags.append('forced')
+            if upper:
+                flags.append('name-with-upper-case-characters')
+            why = 'internal-error' if (r.traceback or r.rc not in (0, 1)) else \
+                ('subproject-not-configured' if not configured else 'program-not-found-after-subproject')
+            out['violations'].append(('policy:wrap-program_names-entry-not-used:' + why + (':' + ','.join(flags) if flags else ''),
+                                      {'part': 'P', 'world': world, 'rc': r.rc, 'configured': configured,
+                                       'printed': m.group(0) if m else None, 'out_tail': r.out[-1200:]}))
+        out['cov'] = ['prog-wm=' + world['wrap_mode'], 'prog-name-upper=' + str(upper)]
+        out['sample'] = {'program_world': world, 'found': bool(m and m.group(1) == 'true'), 'rc': r.rc}
+        return out
+    finally:
+        shutil.rmtree(root, ignore_errors=True)
 
 
 # ====================================================================================================
@@ -693,7 +776,8 @@ def b_specs(tier: str, rng: random.Random) -> T.List[dict]:
 def _worker(item: T.Tuple[str, dict]) -> dict:
     kind, payload = item
     try:
-        res = run_policy_world(payload) if kind == 'A' else run_wrap_case(payload)
+        res = run_policy_world(payload) if kind == 'A' else (run_program_world(payload) if kind == 'P'
+                                                              else run_wrap_case(payload))
     except Exception as e:   # harness trouble is inconclusive, never a verdict
         import traceback
         return {'kind': kind, 'counts': {}, 'violations': [], 'key': common.digest(payload), 'cov': [],
@@ -709,6 +793,8 @@ def replay(chk: common.Check, path: str) -> int:
     runner.preload()
     if w.get('part') == 'A':
         res = run_policy_world(w['world'])
+    elif w.get('part') == 'P':
+        res = run_program_world(w['world'])
     else:
         res = run_wrap_case(w['spec'])
     mechs = sorted({m for m, _ in res['violations']})
@@ -771,6 +857,14 @@ def main() -> int:
         items.append(('A', wld))
     for wld in G.a_nested_worlds(rng, 50 if quick else 500):
         items.append(('A', wld))
+    # the dependency's NAME is a factor of every world (own generator: the other draws stay what they were): a plain
+    # name, spellings with upper-case characters (the same spelling everywhere), names meson serves through several
+    # detection methods; plus lookup sequences whose earlier lookups were left unsatisfied (mostly such names)
+    nrng = random.Random(chk.seed * 1000003 + 10)
+    relookups = G.a_relookup_worlds(nrng, 64 if quick else 640)
+    for wld in relookups:
+        items.append(('A', wld))
+    G.assign_names([wld for _kind, wld in items], nrng)
     # a third of the worlds with a subproject: its dependency takes its version from the subproject's project()
     for _kind, wld in items:
         if wld.get('sub') and not wld.get('sub_download') and rng.random() < 0.33:
@@ -782,7 +876,9 @@ def main() -> int:
         # keep every fault case and every corruption/hash case once; trim the rest by the seed
         bspecs = bspecs[:330]
     items += [('B', s) for s in bspecs]
-    chk.notes['planned'] = {'A_cells': n_cells, 'A_static_table_cells': len(static_cells), 'A_version_cells': len(version_items), 'A_sequences': n_a - n_cells, 'B_cases': len(items) - n_a}
+    # programs provided by a wrap file (program_names), the name spelled with and without upper-case characters
+    items += [('P', w) for w in G.p_worlds(nrng, 12 if quick else 96)]
+    chk.notes['planned'] = {'A_relookup_sequences': len(relookups), 'P_program_worlds': 12 if quick else 96, 'A_cells': n_cells, 'A_static_table_cells': len(static_cells), 'A_version_cells': len(version_items), 'A_sequences': n_a - n_cells, 'B_cases': len(items) - n_a}
 
     # run in slices so that the time budget can stop the exploration (counted, never silent)
     t0 = time.time()
@@ -799,14 +895,17 @@ def main() -> int:
     fam: T.Dict[str, T.List[int]] = {}
     for j in rest:
         wld = items[j][1]
-        key = 'nested' if wld.get('nested') else 'reconf' if wld.get('phase2') else ('failing' if wld.get('side_overrides') else
+        key = 'relookup' if wld.get('relookup') else 'nested' if wld.get('nested') else 'reconf' if wld.get('phase2') else ('failing' if wld.get('side_overrides') else
                                                   ('seq' if len(wld['seq']) != 2 or not _same_args(*wld['seq']) else 'cell'))
         fam.setdefault(key, []).append(j)
     promoted = [j for key, js in sorted(fam.items()) for j in js[:(45 if quick else 200)]]
     first += promoted
     rest = [j for j in rest if j not in set(promoted)]
     rng.shuffle(first)
-    order = first + rest
+    # the small directed families go to the very front: under any load they are explored
+    front = [j for j in range(len(items)) if items[j][0] == 'P' or (items[j][0] == 'A' and items[j][1].get('relookup'))]
+    fset = set(front)
+    order = front + [j for j in first if j not in fset] + [j for j in rest if j not in fset]
     skipped = 0
     for i in range(0, len(order), step):
         if time.time() - t0 > budget:
@@ -835,13 +934,18 @@ def main() -> int:
         for mech, wit in res['violations']:
             chk.violation(mech, wit)
     # samples: a few of each part
-    for kind in ('A', 'B'):
-        for res in [r for r in results if r['kind'] == kind and r['sample']][:4]:
+    for kind in ('A', 'B', 'P'):
+        for res in [r for r in results if r['kind'] == kind and r['sample']][:(4 if kind != 'P' else 1)]:
             chk.sample(res['sample'])
 
     for name, minimum in (('monitor:lookup-begin', 100), ('monitor:fed', 50), ('monitor:do_subproject', 50),
                           ('monitor:candidates', 100), ('rule:documented-answer', 100), ('rule:repeat-same-answer', 100), ('A:reconfigurations', 20), ('rule:side-override-visible-iff-subproject-configured', 20),
                           ('rule:forced-no-system', 20), ('rule:override-no-system', 20), ('rule:no-subproject-from-lookup', 20),
+                          ('rule:documented-answer:name-plain', 100), ('rule:documented-answer:name-case', 100),
+                          ('rule:documented-answer:name-factory', 100), ('rule:relookup-after-unsatisfied', 30),
+                          ('rule:relookup-after-unsatisfied:name-factory', 15), ('rule:provide-link:names:name-case', 10),
+                          ('rule:provide-link:var:name-case', 10), ('rule:provide-link:wrapname:name-case', 2),
+                          ('rule:program-provided-by-wrap', 8),
                           ('monitor:unpack', 50), ('monitor:check_hash', 20), ('monitor:urlopen', 50),
                           ('monitor:get_data', 50), ('monitor:copy_tree', 3),
                           ('rule:unpack-on-verified-bytes', 50), ('rule:nodownload-no-fetch', 50),
@@ -853,7 +957,11 @@ def main() -> int:
         rule='Part A: one case = one configuration (world x lookup sequence) keyed by its structural digest; a decision-table '
              'cell issues its lookup twice. Part B: one case = wrap world (location x corruption x recorded-hash class x '
              'fault x command) run twice (with the fault, then without), keyed by the digest of its specification.',
-        assumptions=['system dependencies are pkg-config files only (private PKG_CONFIG_LIBDIR; cmake hidden from PATH)',
+        assumptions=['system dependencies are pkg-config files only (private PKG_CONFIG_LIBDIR; cmake hidden from PATH); '
+                     'for names with several detection methods every other method finds nothing (no compiler, no '
+                     'config tools on PATH)',
+                     'one spelling per dependency / program name within a world: differently-cased spellings of one name '
+                     'are never mixed (the documents do not say whether names are case-sensitive)',
                      'wrap-file archives over file:// URLs only; git/hg/svn wraps out of scope',
                      'cells the documents leave open (refdeps tag "open") are checked for consistency only',
                      'time.sleep inside mesonbuild.wrap.wrap is skipped (download back-off) - timing only',
